@@ -1,5 +1,6 @@
 import io
 import logging
+import math
 import zlib
 from typing import (
     TYPE_CHECKING,
@@ -182,7 +183,10 @@ def float_value(x: object) -> float:
 
 def num_value(x: object) -> float:
     x = resolve1(x)
-    if not isinstance(x, (int, float)):  # == utils.isnumber(x)
+    if not isinstance(x, (int, float)) or (  # == utils.isnumber(x)
+        isinstance(x, float) and not math.isfinite(x)
+    ):
+        # a real written with hundreds of digits reads as infinity
         if settings.STRICT:
             raise PDFTypeError("Int or Float required: %r" % x)
         return 0
